@@ -386,9 +386,17 @@ def namedtuples_as_tuples(tree, nts, returns):
                     return ast.copy_location(ast.Tuple(elts=[vals[f] for f in fields], ctx=ast.Load()), c)
             return c
 
+    # locals that hold a named tuple built on the spot (`x = T(...)`), recorded before the constructors become plain tuples
+    direct = {}
+    for fn in [x for x in ast.walk(tree) if isinstance(x, ast.FunctionDef)]:
+        for st in ast.walk(fn):
+            if isinstance(st, ast.Assign) and len(st.targets) == 1 and isinstance(st.targets[0], ast.Name) and isinstance(st.value, ast.Call) \
+                    and isinstance(st.value.func, ast.Name) and st.value.func.id in nts:
+                direct.setdefault(id(fn), {}).setdefault(st.targets[0].id, set()).add(st.value.func.id)
     Build().visit(tree)
     for fn in [x for x in ast.walk(tree) if isinstance(x, ast.FunctionDef)]:
-        holds = {}
+        holds = {k: set(v) for k, v in direct.get(id(fn), {}).items()}
+        built_here = set(holds)
         for st in ast.walk(fn):
             if isinstance(st, ast.Assign) and len(st.targets) == 1 and isinstance(st.targets[0], ast.Name) and isinstance(st.value, ast.Call):
                 f = st.value.func
@@ -400,7 +408,8 @@ def namedtuples_as_tuples(tree, nts, returns):
             if isinstance(st, ast.Assign):
                 for t in st.targets:
                     if isinstance(t, ast.Name) and t.id in holds and not (isinstance(st.value, ast.Call) and (
-                            (st.value.func.id if isinstance(st.value.func, ast.Name) else getattr(st.value.func, "attr", None)) in returns)):
+                            (st.value.func.id if isinstance(st.value.func, ast.Name) else getattr(st.value.func, "attr", None)) in returns)) \
+                            and not (t.id in built_here and isinstance(st.value, ast.Tuple)):
                         others[t.id] = True
         holds = {k: next(iter(v)) for k, v in holds.items() if len(v) == 1 and k not in others}
         if not holds:
@@ -419,6 +428,114 @@ def namedtuples_as_tuples(tree, nts, returns):
         ast.fix_missing_locations(tree)
     return n[0]
 
+
+
+# ------------------------------------------------------------------------------------------------------------------
+# named-tuple-valued parameters read by field: `def f(x, group): ... group.a ... group.b` called as `f(x, T(a=u, b=v))`
+#   ->  `def f(x, group): a, b = group; ... a ... b`, `f(x, (u, v))`  (then flattened like any tuple parameter unpacked at entry)
+
+def nt_param_table(mods, nts):
+    """function name -> {parameter: named tuple} for functions with a repository-wide unique name that read the parameter only through the
+    fields of one named tuple, every call handing a freshly built tuple of that kind over for it"""
+    if not nts:
+        return {}
+    defs, calls = {}, {}
+    for mod in mods:
+        for f in [n for n in ast.walk(mod) if isinstance(n, ast.FunctionDef)]:
+            defs.setdefault(f.name, []).append(f)
+        for c in [n for n in ast.walk(mod) if isinstance(n, ast.Call)]:
+            nm = c.func.attr if isinstance(c.func, ast.Attribute) else (c.func.id if isinstance(c.func, ast.Name) else None)
+            if nm:
+                calls.setdefault(nm, []).append(c)
+    out = {}
+    for name, fs in defs.items():
+        if len(fs) != 1 or name.startswith("__") or name not in calls:
+            continue
+        fn = fs[0]
+        a = fn.args
+        if a.vararg or a.kwarg or a.kwonlyargs or a.posonlyargs or a.defaults:
+            continue
+        params = [x.arg for x in a.args]
+        static = any(isinstance(d, ast.Name) and d.id == "staticmethod" for d in fn.decorator_list)
+        bound_params = params[1:] if (params and params[0] in ("self", "cls") and not static) else params
+        field_reads = {}
+        for n in ast.walk(fn):
+            if isinstance(n, ast.Attribute) and isinstance(n.value, ast.Name) and n.value.id in bound_params and isinstance(n.ctx, ast.Load):
+                field_reads.setdefault(n.value.id, []).append(n.attr)
+        found = {}
+        for p_, fields in field_reads.items():
+            n_uses = sum(1 for n in ast.walk(fn) if isinstance(n, ast.Name) and n.id == p_)
+            kinds = [t for t, fl in nts.items() if set(fields) <= set(fl)]
+            if n_uses != len(fields) or not kinds:
+                continue
+            ok, kind = True, None
+            for c in calls[name]:
+                if any(isinstance(x, ast.Starred) for x in c.args) or any(k.arg is None for k in c.keywords):
+                    ok = False
+                    break
+                got = dict(zip(bound_params, c.args))
+                got.update({k.arg: k.value for k in c.keywords})
+                v = got.get(p_)
+                if not (isinstance(v, ast.Call) and isinstance(v.func, ast.Name) and v.func.id in kinds and (kind is None or kind == v.func.id)):
+                    ok = False
+                    break
+                kind = v.func.id
+            if ok and kind:
+                found[p_] = kind
+        if found:
+            out[name] = found
+    return out
+
+
+def unpack_nt_params(tree, nts, table):
+    """rewrite in place (definitions: fields unpacked at entry, read as locals; calls: the constructor becomes a plain tuple); -> count"""
+    if not table:
+        return 0
+    n = 0
+    for fn in [x for x in ast.walk(tree) if isinstance(x, ast.FunctionDef) and x.name in table]:
+        taken = {x.id for x in ast.walk(fn) if isinstance(x, ast.Name)} | {x.arg for x in fn.args.args}
+        lead = []
+        for p_, kind in table[fn.name].items():
+            if p_ not in [x.arg for x in fn.args.args]:
+                continue
+            names = {f: (f if f not in taken else f"{p_}_{f}") for f in nts[kind]}
+            taken |= set(names.values())
+
+            class Read(ast.NodeTransformer):
+                def visit_Attribute(self, a):
+                    self.generic_visit(a)
+                    if isinstance(a.value, ast.Name) and a.value.id == p_ and a.attr in names and isinstance(a.ctx, ast.Load):
+                        return ast.copy_location(ast.Name(id=names[a.attr], ctx=ast.Load()), a)
+                    return a
+
+            fn.body = [Read().visit(s_) for s_ in fn.body]
+            lead.append(ast.Assign(targets=[ast.Tuple(elts=[ast.Name(id=names[f], ctx=ast.Store()) for f in nts[kind]], ctx=ast.Store())],
+                                   value=ast.Name(id=p_, ctx=ast.Load())))
+            n += 1
+        k = 1 if fn.body and isinstance(fn.body[0], ast.Expr) and isinstance(fn.body[0].value, ast.Constant) else 0
+        for st in lead:
+            ast.copy_location(st, fn.body[min(k, len(fn.body) - 1)])
+        fn.body[k:k] = lead
+    for c in [x for x in ast.walk(tree) if isinstance(x, ast.Call)]:
+        nm = c.func.attr if isinstance(c.func, ast.Attribute) else (c.func.id if isinstance(c.func, ast.Name) else None)
+        if nm not in table:
+            continue
+
+        def as_tuple(v):
+            if isinstance(v, ast.Call) and isinstance(v.func, ast.Name) and v.func.id in nts and all(k.arg for k in v.keywords):
+                fields = nts[v.func.id]
+                vals = dict(zip(fields, v.args))
+                vals.update({k.arg: k.value for k in v.keywords})
+                if set(vals) == set(fields):
+                    return ast.copy_location(ast.Tuple(elts=[vals[f] for f in fields], ctx=ast.Load()), v)
+            return v
+
+        c.args = [as_tuple(v) for v in c.args]
+        for k in c.keywords:
+            k.value = as_tuple(k.value)
+    if n:
+        ast.fix_missing_locations(tree)
+    return n
 
 
 # ------------------------------------------------------------------------------------------------------------------
@@ -509,6 +626,82 @@ def flatten_tuple_params(tree, table):
                     else:
                         new_pos.append(v)
                 c.args = new_pos + list(c.args[len(old):])
+    if n:
+        ast.fix_missing_locations(tree)
+    return n
+
+
+
+# ------------------------------------------------------------------------------------------------------------------
+# a method moved to another class with a delegating stub left under the old name:
+#   class C: def m(self, a, b): return D.m2(a, b)      class D: @staticmethod def m2(a, b): <body>
+# is read as if <body> still stood in C.m, and calls `<anything>.m2(...)` made inside C as `self.m(...)`
+
+def stub_table(mods):
+    """(class, method) -> (target class, target method name, target FunctionDef) over the raw modules of src/"""
+    classes = {}
+    for mod in mods:
+        for c in [n for n in mod.body if isinstance(n, ast.ClassDef)]:
+            classes.setdefault(c.name, []).append(c)
+    out = {}
+    for cname, cs in classes.items():
+        if len(cs) != 1:
+            continue
+        for m in [x for x in cs[0].body if isinstance(x, ast.FunctionDef)]:
+            body = [s_ for s_ in m.body if not (isinstance(s_, ast.Expr) and isinstance(s_.value, ast.Constant))]
+            if len(body) != 1 or not isinstance(body[0], ast.Return) or not isinstance(body[0].value, ast.Call):
+                continue
+            call = body[0].value
+            f = call.func
+            if not (isinstance(f, ast.Attribute) and isinstance(f.value, ast.Name) and f.value.id in classes and f.value.id != cname and len(classes[f.value.id]) == 1):
+                continue
+            a = m.args
+            if a.vararg or a.kwarg or a.kwonlyargs or a.posonlyargs or a.defaults or call.keywords:
+                continue
+            static = any(isinstance(d, ast.Name) and d.id == "staticmethod" for d in m.decorator_list)
+            own = [x.arg for x in a.args][0 if static else 1:]
+            if [x.id if isinstance(x, ast.Name) else None for x in call.args] != own:
+                continue
+            tgt = [x for x in classes[f.value.id][0].body if isinstance(x, ast.FunctionDef) and x.name == f.attr]
+            if len(tgt) != 1 or not any(isinstance(d, ast.Name) and d.id == "staticmethod" for d in tgt[0].decorator_list):
+                continue
+            ta = tgt[0].args
+            if ta.vararg or ta.kwarg or ta.kwonlyargs or ta.posonlyargs or len(ta.args) != len(own):
+                continue
+            out[(cname, m.name)] = (f.value.id, f.attr, tgt[0])
+    return out
+
+
+def read_through_stubs(tree, table):
+    """rewrite in place; -> number of stubs read through"""
+    if not table:
+        return 0
+    import copy
+    n = 0
+    for c in [x for x in tree.body if isinstance(x, ast.ClassDef)]:
+        mine = {m: v for (cn, m), v in table.items() if cn == c.name}
+        if not mine:
+            continue
+        for m in [x for x in c.body if isinstance(x, ast.FunctionDef) and x.name in mine]:
+            dcls, dname, tgt = mine[m.name]
+            static = any(isinstance(d, ast.Name) and d.id == "staticmethod" for d in m.decorator_list)
+            own = [x.arg for x in m.args.args][0 if static else 1:]
+            ren = {t.arg: o for t, o in zip(tgt.args.args, own) if t.arg != o}
+            body = [copy.deepcopy(s_) for s_ in tgt.body if not (isinstance(s_, ast.Expr) and isinstance(s_.value, ast.Constant))]
+            if ren:
+                for s_ in body:
+                    for x in ast.walk(s_):
+                        if isinstance(x, ast.Name) and x.id in ren:
+                            x.id = ren[x.id]
+            doc = [s_ for s_ in m.body if isinstance(s_, ast.Expr) and isinstance(s_.value, ast.Constant)][:1]
+            m.body = doc + body
+            n += 1
+        targets = {v[1]: m for m, v in mine.items()}
+        for fn in [x for x in c.body if isinstance(x, ast.FunctionDef) and x.name not in mine]:
+            for call in [x for x in ast.walk(fn) if isinstance(x, ast.Call)]:
+                f = call.func
+                if isinstance(f, ast.Attribute) and f.attr in targets and not (isinstance(f.value, ast.Name) and f.value.id == "self"):
+                    call.func = ast.copy_location(ast.Attribute(value=ast.Name(id="self", ctx=ast.Load()), attr=targets[f.attr], ctx=ast.Load()), f)
     if n:
         ast.fix_missing_locations(tree)
     return n
